@@ -236,7 +236,14 @@ class TransformationTensor(ProjectiveTensor, ABC):
         if power < 0:
             return self.inverse().__pow__(-power, modulo)
 
-        result = super().__pow__(power, modulo)
+        if modulo is not None or not isinstance(power, int):
+            return NotImplemented
+
+        # repeated composition instead of a single tensor diagram with `power` nodes: the einsum behind the diagram
+        # is limited to 52 index labels (power < 27, or < 18 for collections) and its cost grows exponentially
+        result: TransformationTensor = self
+        for _ in range(power - 1):
+            result = self * result
         return type(self)(result, copy=False)
 
     def __getitem__(self, index: TensorIndex) -> Tensor | np.generic:
